@@ -10,6 +10,7 @@ import (
 	"strconv"
 	"strings"
 	"testing"
+	"unicode/utf8"
 
 	"github.com/modernizing/coca/pkg/application/call"
 	"github.com/modernizing/coca/pkg/application/rcall"
@@ -64,6 +65,8 @@ type CliCase struct {
 	Lookup bool       `json:"lookup,omitempty"`
 	Apis   []Api      `json:"apis,omitempty"`
 	Sort   bool       `json:"sort,omitempty"`
+	Layout int        `json:"layout,omitempty"` // how deps.json / apis.json are laid out (layoutJSON)
+	Spell  int        `json:"spell,omitempty"`  // which spelling of the command line (cliArgs)
 }
 
 // ---- generators ------------------------------------------------------------------------
@@ -85,8 +88,34 @@ func calleeNames(m mgen.Model) []string {
 	return out
 }
 
+// nearMiss returns a name one small step away from a declared name.
+func nearMiss(full string, kind int) string {
+	switch kind {
+	case 0:
+		_, n := utf8.DecodeLastRuneInString(full)
+		return full[:len(full)-n]
+	case 1:
+		return full + "0"
+	case 2:
+		return strings.ToUpper(full)
+	case 3:
+		return strings.ToLower(full)
+	case 4:
+		return full + " "
+	case 5:
+		return " " + full
+	case 6:
+		return full + "."
+	}
+	return ""
+}
+
 func genRoot(t *rapid.T, m mgen.Model) string {
 	methods := m.Methods()
+	if len(methods) > 0 && rapid.IntRange(0, 11).Draw(t, "nearMiss") == 11 {
+		// absent, unless another method is declared under exactly that name
+		return nearMiss(rapid.SampledFrom(methods).Draw(t, "nearMissOf"), rapid.IntRange(0, 7).Draw(t, "nearMissKind"))
+	}
 	k := rapid.IntRange(0, 13).Draw(t, "rootKind")
 	if k == 0 || len(methods) == 0 {
 		return "zz.Absent.nothing"
@@ -156,6 +185,16 @@ func genDI(t *rapid.T, m mgen.Model) map[string]string {
 				from, to = prevTo, prevFrom
 			}
 		}
+		switch rapid.IntRange(0, 5).Draw(t, "diExtra") {
+		case 3: // the implementation is not part of the model
+			to = "org.ext.Impl"
+		case 4: // a class whose full name is the head of another class's full name (a.C0 next to a.C00)
+			if heads := headClasses(m); len(heads) > 0 {
+				from = rapid.SampledFrom(heads).Draw(t, "diHead")
+			}
+		case 5: // what the project's own DI scan registers: a class as its own implementation
+			to = from
+		}
 		di[from] = to
 		prevFrom, prevTo = from, to
 	}
@@ -176,18 +215,51 @@ func tailClasses(m mgen.Model) []string {
 	return out
 }
 
-func genApis(t *rapid.T, m mgen.Model, max int) []Api {
+// headClasses lists the classes whose full name is a proper prefix of another class's full name.
+func headClasses(m mgen.Model) []string {
+	var out []string
+	for _, c := range m.Classes {
+		for _, d := range m.Classes {
+			if c.Full() != d.Full() && strings.HasPrefix(d.Full(), c.Full()) {
+				out = append(out, c.Full())
+				break
+			}
+		}
+	}
+	return out
+}
+
+// URI tails with characters of the output format; the second list only where no table is parsed
+var uriTails = []string{"/{id:[0-9]+}", "/x;y=1", "/a.b", "/A_1", "/->", "/\u00e9"}
+var uriTailsBlank = []string{"/a -> b", "/ b", "/a b;", "/} x"}
+
+// genApis draws an API list. blanks: URIs may contain blanks (not where the -c table is read back).
+func genApis(t *rapid.T, m mgen.Model, max int, blanks bool) []Api {
 	var apis []Api
 	n := rapid.IntRange(0, max).Draw(t, "nApis")
+	if rapid.IntRange(0, 19).Draw(t, "manyApis") == 19 {
+		n = rapid.IntRange(9, 20).Draw(t, "nManyApis")
+	}
 	methods := m.Methods()
 	for i := 0; i < n; i++ {
-		a := Api{Verb: rapid.SampledFrom([]string{"GET", "POST", "PUT", "DELETE"}).Draw(t, "verb"),
+		a := Api{Verb: rapid.SampledFrom([]string{"GET", "POST", "PUT", "DELETE", "PATCH", "get"}).Draw(t, "verb"),
 			Uri: "/" + rapid.StringMatching(`[a-z]{1,3}(/[a-z{}]{1,4}){0,2}`).Draw(t, "uri")}
+		if rapid.IntRange(0, 5).Draw(t, "uriTail") == 5 {
+			tails := uriTails
+			if blanks {
+				tails = append(append([]string{}, uriTails...), uriTailsBlank...)
+			}
+			a.Uri += rapid.SampledFrom(tails).Draw(t, "uriTailText")
+		}
 		if len(methods) == 0 || rapid.IntRange(0, 9).Draw(t, "absent") == 0 {
 			a.Pkg, a.Class, a.Method = "zz", "Absent", "nothing"
 		} else if i > 0 && rapid.IntRange(0, 5).Draw(t, "sameHandler") == 5 {
 			// two routes served by one handler
 			a.Pkg, a.Class, a.Method = apis[i-1].Pkg, apis[i-1].Class, apis[i-1].Method
+			if rapid.IntRange(0, 2).Draw(t, "sameRoute") == 2 {
+				// the same entry twice
+				a.Verb, a.Uri = apis[i-1].Verb, apis[i-1].Uri
+			}
 		} else {
 			ci := rapid.IntRange(0, len(m.Classes)-1).Draw(t, "apiClass")
 			cl := m.Classes[ci]
@@ -209,7 +281,7 @@ func genApis(t *rapid.T, m mgen.Model, max int) []Api {
 func genApi(t *rapid.T) ApiCase {
 	m := wGen(t, wOpts{Quotes: true})
 	c := ApiCase{Model: m, DI: genDI(t, m)}
-	c.Apis = genApis(t, m, 6)
+	c.Apis = genApis(t, m, 6, true)
 	if len(c.DI) == 0 {
 		c.NilDI = rapid.IntRange(0, 3).Draw(t, "nilDI") == 3
 	}
@@ -233,7 +305,7 @@ func genSeq(t *rapid.T) SeqCase {
 		m := c.Models[s.Model]
 		if rapid.IntRange(0, 2).Draw(t, "stepKind") == 2 {
 			s.Kind = "api"
-			s.Apis = genApis(t, m, 3)
+			s.Apis = genApis(t, m, 3, true)
 			s.UseDI = rapid.Bool().Draw(t, "useDI")
 		} else {
 			s.Root = genRoot(t, m)
@@ -253,12 +325,14 @@ func genCli(t *rapid.T) CliCase {
 	c := CliCase{Model: m, Mode: "call"}
 	if rapid.IntRange(0, 1).Draw(t, "mode") == 1 {
 		c.Mode = "api"
-		c.Apis = genApis(t, m, 5)
+		c.Apis = genApis(t, m, 5, false)
 		c.Sort = rapid.Bool().Draw(t, "sort")
-		return c
+	} else {
+		c.Root = genRoot(t, m)
+		c.Lookup = rapid.IntRange(0, 2).Draw(t, "lookup") == 2
 	}
-	c.Root = genRoot(t, m)
-	c.Lookup = rapid.IntRange(0, 2).Draw(t, "lookup") == 2
+	c.Layout = rapid.IntRange(0, 3).Draw(t, "layout")
+	c.Spell = rapid.IntRange(0, 6).Draw(t, "spell")
 	return c
 }
 
@@ -511,6 +585,14 @@ func checkCall(c CallCase) pbt.Verdict {
 	if _, ok := c.Model.Calls()[c.Root]; !ok && contains(calleeNames(c.Model), c.Root) {
 		v.Classes = append(v.Classes, "root_called_but_undeclared")
 	}
+	if _, ok := c.Model.Calls()[c.Root]; !ok {
+		for _, d := range c.Model.Methods() {
+			if strings.HasPrefix(d, c.Root) || strings.HasPrefix(c.Root, d) || strings.EqualFold(d, c.Root) || strings.TrimSpace(c.Root) == d {
+				v.Classes = append(v.Classes, "root_one_step_from_declared_name")
+				break
+			}
+		}
+	}
 	return v
 }
 
@@ -567,7 +649,53 @@ func classify(r ref, root string, lookup bool, canon string) pbt.Verdict {
 	if lookup {
 		v.Classes = append(v.Classes, "lookup")
 	}
+	maxOut, arrow := 0, false
+	for n := range r.reach(root) {
+		if len(r.rel[n]) > maxOut {
+			maxOut = len(r.rel[n])
+		}
+		for _, c := range r.rel[n] {
+			if strings.Contains(c, " -> ") {
+				arrow = true
+			}
+		}
+	}
+	if maxOut >= 10 {
+		v.Classes = append(v.Classes, "outdegree>=10")
+	}
+	if maxOut >= 33 {
+		v.Classes = append(v.Classes, "outdegree>=33")
+	}
+	if arrow {
+		v.Classes = append(v.Classes, "reachable_callee_name_holds_edge_operator")
+	}
+	if !cyc {
+		switch d := r.depth(root, map[string]int{}); {
+		case d > budget:
+			v.Classes = append(v.Classes, "acyclic_deeper_than_budget")
+		case d == budget && size == budget:
+			v.Classes = append(v.Classes, "chain_of_budget_methods")
+		}
+	}
 	return v
+}
+
+// depth is the largest number of methods with callees on one call path from n (acyclic part only).
+func (r ref) depth(n string, memo map[string]int) int {
+	if len(r.rel[n]) == 0 {
+		return 0
+	}
+	if d, ok := memo[n]; ok {
+		return d
+	}
+	best := 0
+	for _, c := range r.rel[n] {
+		if d := r.depth(c, memo); d > best {
+			best = d
+		}
+	}
+	memo[n] = best + 1
+	return best + 1
 }
 
 // modelClasses labels the shapes of the widened generator present in a model.
@@ -624,6 +752,69 @@ func modelClasses(m mgen.Model) []string {
 	}
 	if len(m.Classes) > 5 {
 		add("classes>5")
+	}
+	if len(m.Classes) == 0 {
+		add("no_classes")
+	}
+	lower := map[string]int{}
+	for _, c := range m.Classes {
+		lower[strings.ToLower(c.Full())]++
+		if len(c.Extend) > 0 || len(c.Implements) > 0 {
+			add("supertypes_recorded")
+		}
+		for _, d := range m.Classes {
+			if c.Pkg == d.Pkg && c.Name != d.Name && strings.HasPrefix(d.Name, c.Name) {
+				add("class_name_prefix_of_another")
+			}
+		}
+		names := []string{c.Name}
+		lowerM := map[string]int{}
+		for _, mm := range c.Methods {
+			names = append(names, mm.Name)
+			lowerM[strings.ToLower(mm.Name)]++
+			for _, cc := range mm.Calls {
+				names = append(names, cc.Node)
+				if cc.Node == "" && cc.Pkg != "" {
+					add("empty_receiver_with_package")
+				}
+				if strings.HasPrefix(cc.Node, "\"") || strings.HasPrefix(cc.Node, "(") {
+					add("literal_receiver")
+				}
+			}
+		}
+		for _, n := range lowerM {
+			if n > 1 {
+				add("method_names_differ_in_case_only")
+			}
+		}
+		for _, n := range names {
+			switch {
+			case len(n) > 65536:
+				add("name_longer_than_64KiB")
+			case len(n) >= 5000:
+				add("name_of_5000_bytes")
+			case len(n) >= 300:
+				add("name_of_300_bytes")
+			}
+			if len(n) != utf8.RuneCountInString(n) {
+				add("non_ascii_names")
+			}
+			if strings.Contains(n, " -> ") {
+				add("edge_operator_in_name")
+			}
+			if strings.Contains(n, "_") {
+				add("underscore_names")
+			}
+			switch n {
+			case "node", "edge", "graph", "digraph", "strict", "subgraph":
+				add("dot_keyword_names")
+			}
+		}
+	}
+	for _, n := range lower {
+		if n > 1 {
+			add("class_names_differ_in_case_only")
+		}
 	}
 	return out
 }
@@ -745,6 +936,58 @@ func apiClasses(m mgen.Model, di map[string]string, apis []Api) (classes []strin
 			break
 		}
 	}
+	declared := map[string]bool{}
+	for _, c := range m.Classes {
+		declared[c.Full()] = true
+	}
+	var keys []string
+	for k := range di {
+		keys = append(keys, k)
+	}
+	sort.Strings(keys)
+	identity, outside, head := false, false, false
+	for _, k := range keys {
+		if di[k] == k {
+			identity = true
+		}
+		if !declared[di[k]] && calls[k] {
+			outside = true
+		}
+		for c := range calls {
+			if _, isKey := di[c]; c != k && strings.HasPrefix(c, k) && !isKey {
+				head = true
+			}
+		}
+	}
+	if identity {
+		classes = append(classes, "di_identity_entry")
+	}
+	if outside {
+		classes = append(classes, "di_called_key_to_impl_outside_model")
+	}
+	if head {
+		classes = append(classes, "di_key_is_prefix_of_called_class")
+	}
+	seenApi := map[Api]bool{}
+	for _, a := range apis {
+		if seenApi[a] {
+			classes = append(classes, "same_api_entry_twice")
+			break
+		}
+		seenApi[a] = true
+	}
+	for _, a := range apis {
+		if strings.Contains(a.Uri, " -> ") {
+			classes = append(classes, "uri_holds_edge_operator")
+			break
+		}
+	}
+	if len(apis) > 8 {
+		classes = append(classes, "apis>8")
+	}
+	if len(apis) > 12 {
+		classes = append(classes, "apis>12")
+	}
 	for k := range di {
 		hit := false
 		for c := range calls {
@@ -865,6 +1108,79 @@ func checkSeq(c SeqCase) pbt.Verdict {
 
 func stripScratch(s, dir string) string { return strings.ReplaceAll(s, dir, "<scratch>") }
 
+// layoutJSON writes v the way one of several writers would: 0 compact on one line, 1 what coca
+// itself writes (tab-indented), 2 the same with CRLF line ends and blank lines at the end, 3 indented
+// with blanks, blank lines in front, no final newline. (No string in these files holds a line break.)
+func layoutJSON(v interface{}, layout int) string {
+	switch layout {
+	case 1:
+		raw, _ := json.MarshalIndent(v, "", "\t")
+		return string(raw)
+	case 2:
+		raw, _ := json.MarshalIndent(v, "", "\t")
+		return strings.ReplaceAll(string(raw), "\n", "\r\n") + "\r\n\r\n"
+	case 3:
+		raw, _ := json.MarshalIndent(v, "  ", "  ")
+		return "\n \n  " + string(raw)
+	}
+	raw, _ := json.Marshal(v)
+	return string(raw)
+}
+
+const altDeps = "in put/deps copy.json"
+
+// cliArgs spells the command line in one of the ways the option parser accepts; all of them ask
+// for the same thing. Spelling 4 reads the dependence file from another place.
+func cliArgs(c CliCase) (args []string, depsRel string) {
+	depsRel = "coca_reporter/deps.json"
+	flag := func(on bool, s ...string) []string {
+		if on {
+			return s
+		}
+		return nil
+	}
+	if c.Mode == "api" {
+		switch c.Spell {
+		case 1:
+			return append([]string{"api", "--count"}, flag(c.Sort, "--sort")...), depsRel
+		case 2:
+			if c.Sort {
+				return []string{"api", "-sc"}, depsRel
+			}
+			return []string{"api", "--count=true"}, depsRel
+		case 3:
+			return append(append([]string{"api"}, flag(c.Sort, "--sort=true")...), "-c", "-a", ""), depsRel
+		case 4:
+			return append([]string{"api", "-c", "-d", altDeps}, flag(c.Sort, "-s")...), altDeps
+		case 5: // every generated URI starts with a slash
+			return append([]string{"api", "-c", "--aggregate=/"}, flag(c.Sort, "-s")...), depsRel
+		case 6:
+			return append([]string{"api", "-c", "-r", ""}, flag(c.Sort, "-s")...), depsRel
+		}
+		return append([]string{"api", "-c"}, flag(c.Sort, "-s")...), depsRel
+	}
+	switch c.Spell {
+	case 1:
+		return append([]string{"call", "--className", c.Root}, flag(c.Lookup, "--lookup")...), depsRel
+	case 2:
+		return append([]string{"call", "--className=" + c.Root}, flag(c.Lookup, "--lookup=true")...), depsRel
+	case 3:
+		return append(append([]string{"call"}, flag(c.Lookup, "-l")...), "-c", c.Root), depsRel
+	case 4:
+		return append([]string{"call", "-d", altDeps, "-c", c.Root}, flag(c.Lookup, "-l")...), altDeps
+	case 5:
+		return append([]string{"call", "-c", c.Root, "--remove="}, flag(c.Lookup, "-l")...), depsRel
+	case 6:
+		if c.Root != "" && c.Lookup {
+			return []string{"call", "-lc", c.Root}, depsRel
+		}
+		if c.Root != "" {
+			return []string{"call", "-c" + c.Root}, depsRel
+		}
+	}
+	return append([]string{"call", "-c", c.Root}, flag(c.Lookup, "-l")...), depsRel
+}
+
 func checkCli(c CliCase) pbt.Verdict {
 	dir := cli.Scratch("c03-")
 	defer os.RemoveAll(dir)
@@ -872,25 +1188,14 @@ func checkCli(c CliCase) pbt.Verdict {
 	if data == nil {
 		data = []core_domain.CodeDataStruct{}
 	}
-	deps, _ := json.Marshal(data)
-	files := map[string]string{"coca_reporter/deps.json": string(deps), "coca_reporter/identify.json": "[]"}
-	var args []string
+	args, depsRel := cliArgs(c)
+	files := map[string]string{depsRel: layoutJSON(data, c.Layout), "coca_reporter/identify.json": "[]"}
 	if c.Mode == "api" {
 		list := restApis(c.Apis)
 		if list == nil {
 			list = []api_domain.RestAPI{}
 		}
-		raw, _ := json.Marshal(list)
-		files["coca_reporter/apis.json"] = string(raw)
-		args = []string{"api", "-c"}
-		if c.Sort {
-			args = append(args, "-s")
-		}
-	} else {
-		args = []string{"call", "-c", c.Root}
-		if c.Lookup {
-			args = append(args, "-l")
-		}
+		files["coca_reporter/apis.json"] = layoutJSON(list, c.Layout)
 	}
 	cli.WriteTree(dir, files)
 	res, err := cli.Run("coca", dir, nil, args...)
@@ -913,7 +1218,8 @@ func checkCli(c CliCase) pbt.Verdict {
 			return pbt.Fail("`%s`, coca_reporter/call.dot: %s", shown, msg)
 		}
 		v := classify(newRef(c.Model, nil), c.Root, c.Lookup, "cli|"+canon(c.Model, c.Root, nil))
-		v.Classes = append(v.Classes, "cli_call")
+		v.Classes = append(v.Classes, "cli_call", fmt.Sprintf("cli_layout_%d", c.Layout), fmt.Sprintf("cli_spelling_%d", c.Spell))
+		v.Classes = append(v.Classes, modelClasses(c.Model)...)
 		return v
 	}
 	raw, err := os.ReadFile(filepath.Join(dir, "coca_reporter", "api.dot"))
@@ -967,7 +1273,8 @@ func checkCli(c CliCase) pbt.Verdict {
 	}
 	v := pbt.Verdict{Canon: "cli|" + canon(c.Model, fmt.Sprint(c.Apis), nil)}
 	v.Classes, v.NonTrivial = apiClasses(c.Model, nil, c.Apis)
-	v.Classes = append(v.Classes, "cli_api")
+	v.Classes = append(v.Classes, "cli_api", fmt.Sprintf("cli_layout_%d", c.Layout), fmt.Sprintf("cli_spelling_%d", c.Spell))
+	v.Classes = append(v.Classes, modelClasses(c.Model)...)
 	if c.Sort {
 		v.Classes = append(v.Classes, "cli_api_sorted")
 	}
@@ -976,8 +1283,10 @@ func checkCli(c CliCase) pbt.Verdict {
 
 func init() {
 	pbt.SetProperty("C03")
-	pbt.Describe("rapid-generated code models (1-5, sometimes up to 8 classes over 7 package names and the default package, 0-4 methods each plus an optional constructor, 0-4 calls per method drawn from: declared methods incl. self, undeclared methods (also names declared elsewhere), external classes, receivers without package, empty receiver, constructor form, with the call Types the Java front end writes; class simple names shared between packages, preferably packages one of which is a suffix of the other; method names that are prefixes/suffixes of each other; names with a double quote or '$'; class-level (field initialiser) calls; one quarter of the models acyclic by construction and one quarter a call tree of exactly 5-9 expandable methods, so that trees sit on both sides of the budget), a root (declared caller / declared leaf / absent / a name that only occurs as callee), lookup on/off; for the api check additionally a DI map of 0-4 replacements (project class, external interface, chains, swaps; nil map) and 0-6 REST APIs (two routes may share a handler). Sub-check seq: 2-4 generations (call, call -l, api) in one process without reset on one or two models that share class and method names. Sub-check cli: the same through `coca call [-l]` and `coca api -c [-s]` on written deps.json / apis.json. Oracle: reference call relation computed from the abstract model (DI applied), reachability, depth-first tree size; SortAPIs must keep each size with its API. Non-trivial = a cycle or a node of out-degree >= 2 is reachable from the root; distinct = hash of (root or api list, sorted call relation, DI map).",
-		"names contain no backslash and no dot inside a simple name; URIs contain no double quote, blank-free verbs",
+	pbt.Describe("rapid-generated code models (1-5, sometimes up to 8 classes over 7 package names and the default package, 0-4 methods each plus an optional constructor, 0-4 calls per method drawn from: declared methods incl. self, undeclared methods (also names declared elsewhere), external classes, receivers without package, empty receiver, constructor form, with the call Types the Java front end writes; class simple names shared between packages, preferably packages one of which is a suffix of the other; method names that are prefixes/suffixes of each other; names with a double quote or '$'; class-level (field initialiser) calls; one quarter of the models acyclic by construction and one quarter a call tree of exactly 5-9 expandable methods, so that trees sit on both sides of the budget), a root (declared caller / declared leaf / absent / a name that only occurs as callee), lookup on/off; for the api check additionally a DI map of 0-4 replacements (project class, external interface, chains, swaps; nil map) and 0-6 REST APIs (two routes may share a handler). Widened by the audit of input dimensions, each shape behind its own draw: no class at all; callees whose receiver is the expression text the Java front end records for a call on a string literal (`\"a -> b\".length()`: blanks, the edge operator ' -> ', ';', braces, DOT keywords inside a quoted name) and call arguments with such texts; non-ASCII names, names differing only in case, '_' names, names equal to DOT keywords, names of 300 and 5000 bytes, one callee name of 70000 bytes; a class whose name is the head of another class's name in the same package (C0 / C00 / C0$1), also as DI key; DI entries to an implementation outside the model and identity entries; extends/implements, imports, fields (data the relation does not depend on); an empty receiver with a package; one method with 10-65 calls; call trees that are chains (depth = size, also exactly the budget) and trees of 12-24 expandable methods; roots one step from a declared name (last character dropped or added, other case, blank or dot added, empty); 9-20 REST APIs, the same API entry twice, verbs PATCH and lower case, URIs with regex templates, ';', '.', '->', non-ASCII and (in-process only) blanks and ' -> '. Sub-check seq: 2-4 generations (call, call -l, api) in one process without reset on one or two models that share class and method names. Sub-check cli: the same through `coca call [-l]` and `coca api -c [-s]` on written deps.json / apis.json, laid out compact, tab-indented (what coca writes), with CRLF line ends and trailing blank lines, or blank-indented with leading blank lines and no final newline; the command line spelled in 7 ways (-c v, --className v, --className=v, -cv, -lc v, flags first, --count/--sort[=true], -sc, explicit empty -a/-r, --aggregate=/, -d with the dependence file in another directory whose name holds a blank). Oracle: reference call relation computed from the abstract model (DI applied), reachability, depth-first tree size; SortAPIs must keep each size with its API. Non-trivial = a cycle or a node of out-degree >= 2 is reachable from the root; distinct = hash of (root or api list, sorted call relation, DI map).",
+		"names contain no backslash, no line break and no dot inside a simple name; blanks occur only inside receiver texts of calls on literals (never in a declared name, so an API header edge is told from a call edge by the blank in its source); URIs contain no double quote, backslash, comma or '|', blank-free verbs; URIs with blanks are not used where the -c table is read back (the table writer may wrap them)",
+		"a DI key that equals the package of a constructor-form callee (`new a.C0()` with key `a`) is not generated: the statement does not say whether that is a call through an injected interface",
+		"the generator feature 'edge-operator-in-name' (receiver texts holding ' -> ') is switched off while known_findings.json lists a known finding of C03 tied to it",
 		"the expansion budget is read from the code through the verif hook (VerifBudget) so that the check follows a deliberate change of the constant",
 		"in lookup mode: every edge is a forward or a reverse call, direct callees and direct callers of the root are present, and all reachable calls are present when the call tree fits the budget; the remaining reverse clauses are C04's subject",
 		"two functions of one full name in a class (overloads) are not generated: the statement does not say which of them a root name denotes",
